@@ -64,23 +64,16 @@ class TlcResult:
 _MARK = re.compile(r'^<<"([A-Z]+)", "(.*)">>$')
 
 
+_ESC = re.compile(r"\\(.)", re.S)
+
+
 def _unescape_tla(s):
     # TLC prints strings with \" and \\ escapes
-    out = []
-    i = 0
-    while i < len(s):
-        ch = s[i]
-        if ch == "\\" and i + 1 < len(s):
-            out.append(s[i + 1])
-            i += 2
-        else:
-            out.append(ch)
-            i += 1
-    return "".join(out)
+    return _ESC.sub(lambda m: m.group(1), s) if "\\" in s else s
 
 
 def run_tlc(module, cfg, wd, workers=4, timeout=900, simulate=None, depth=None, coverage=False,
-            env_extra=None, java_opts=None, extra=None, markers=("REPLAY",), deadlock=False, heap="8g"):
+            env_extra=None, java_opts=None, extra=None, markers=("REPLAY",), deadlock=False, heap="8g", dedupe=False):
     """Runs TLC on spec/<module>.tla with spec/<cfg>. Returns TlcResult; raises ToolError on tool failure."""
     meta = os.path.join(wd, "tlc-%s" % cfg.replace("/", "_"))
     shutil.rmtree(meta, ignore_errors=True)
@@ -118,12 +111,18 @@ def run_tlc(module, cfg, wd, workers=4, timeout=900, simulate=None, depth=None, 
     r = TlcResult()
     r.wall = time.time() - t0
     marked = {m: [] for m in markers}
+    seen_lines = set()
     tail = []
     with open(outp, errors="replace") as fh:
         for line in fh:
             line = line.rstrip("\n")
             m = _MARK.match(line)
             if m and m.group(1) in marked:
+                if dedupe:
+                    # (an export invariant that holds in many states prints the same line many times)
+                    if line in seen_lines:
+                        continue
+                    seen_lines.add(line)
                 try:
                     marked[m.group(1)].append(json.loads(_unescape_tla(m.group(2))))
                 except Exception as e:  # noqa
